@@ -531,7 +531,17 @@ pub fn c14_tables(reg: &Registry, cfg: &Cfg, out: &mut Out) {
         for _ in 0..ntab {
             let len = rng.below(9) as usize;
             let rows: Vec<(usize, usize, AmountT, AmountT)> = (0..len)
-                .map(|_| (rng.below(n as u64) as usize, rng.below(n as u64) as usize, *rng.pick(&base), *rng.pick(&base)))
+                .map(|_| {
+                    // now and then an "alias" row (factor exactly 1 and / or offset exactly 0)
+                    let (one, zero) = (from_parts_dec(false, 1, 0), from_parts_dec(false, 0, 0));
+                    let (f, o) = match rng.below(8) {
+                        0 | 1 => (one, zero),
+                        2 => (one, *rng.pick(&base)),
+                        3 => (*rng.pick(&base), zero),
+                        _ => (*rng.pick(&base), *rng.pick(&base)),
+                    };
+                    (rng.below(n as u64) as usize, rng.below(n as u64) as usize, f, o)
+                })
                 .collect();
             for u in 0..n {
                 for to in 0..n {
